@@ -348,3 +348,59 @@ Proof.
   - intros Hpos. assert (es =? 0 = false) as -> by lia. destruct (Halloc Hpos) as (Hb & Hb0 & Hb1 & Hb2). repeat split; nia.
 Qed.
 End World.
+
+(* ---------- the public entry points: iter_rows_mut / iter_cols_mut of a coherent M x m buffer (major M, minor m) build
+   exactly the machine the theorems above are about, in one of the two layouts ---------- *)
+Section Entry.
+Variable c : cfg.
+Hypothesis Hwf : wf c.
+Variables es al base bytes : Z.
+Hypothesis Hes : 0 <= es.
+Hypothesis Hal : 0 < al.
+Variables M m : Z.
+Hypothesis HM : 0 < M.
+Hypothesis Hm : 0 < m.
+Hypothesis Hcnt : M * m <= umax c.
+Hypothesis Hbase : 0 < base.                 (* Vec::as_mut_ptr() is never null *)
+Hypothesis Halloc : 0 < es -> bytes = (M * m) * es /\ 0 < base /\ base + bytes <= umax c /\ bytes <= imax c.
+
+Lemma nz_pos a : 0 < a -> nz_new_unchecked a = Val a.
+Proof. intros H. unfold nz_new_unchecked. assert (a =? 0 = false) as -> by lia. reflexivity. Qed.
+
+Lemma over_major_eq : Vecs_over_major_axis c es al base bytes (M * m) (mkAxisShape M m) = Vecs_assemble c es base bytes base m M 1 m.
+Proof.
+  unfold Vecs_over_major_axis, AxisShape_major_stride, AxisShape_minor_stride, nn_new_unchecked. cbn [major minor].
+  assert (M * m =? 0 = false) as -> by nia. assert (base =? 0 = false) as -> by lia. cbn [bind].
+  rewrite !nz_pos by lia. reflexivity.
+Qed.
+Lemma over_minor_eq : Vecs_over_minor_axis c es al base bytes (M * m) (mkAxisShape M m) = Vecs_assemble c es base bytes base 1 m m M.
+Proof.
+  unfold Vecs_over_minor_axis, AxisShape_major_stride, AxisShape_minor_stride, nn_new_unchecked. cbn [major minor].
+  assert (M * m =? 0 = false) as -> by nia. assert (base =? 0 = false) as -> by lia. cbn [bind].
+  rewrite !nz_pos by lia. reflexivity.
+Qed.
+
+Lemma cnt_bounds : 0 < M * m <= umax c.
+Proof. split; [nia|exact Hcnt]. Qed.
+
+(* over the major axis: M vectors of m elements, axis stride m, vector stride 1 *)
+Theorem entry_major_init : exists o0, Vecs_over_major_axis c es al base bytes (M * m) (mkAxisShape M m) = Val o0 /\
+  WInv es base M m m 1 {| outer := o0; inners := []; yielded := [] |} {| go := Some (0, M - 1); gis := []; ypos := [] |}.
+Proof.
+  rewrite over_major_eq. eapply (world_init c es base bytes Hes (M * m) cnt_bounds Halloc M m m 1); try lia; nia.
+Qed.
+(* over the minor axis: m vectors of M elements, axis stride 1, vector stride m *)
+Theorem entry_minor_init : exists o0, Vecs_over_minor_axis c es al base bytes (M * m) (mkAxisShape M m) = Val o0 /\
+  WInv es base m M 1 m {| outer := o0; inners := []; yielded := [] |} {| go := Some (0, m - 1); gis := []; ypos := [] |}.
+Proof.
+  rewrite over_minor_eq. eapply (world_init c es base bytes Hes (M * m) cnt_bounds Halloc m M 1 m); try lia; nia.
+Qed.
+End Entry.
+
+(* a matrix without elements: the detached empty iterator; every call returns None, nothing is ever handed out *)
+Lemma entry_elementless c es al base bytes sh :
+  Vecs_over_major_axis c es al base bytes 0 sh = Val (Vecs_empty al) /\ Vecs_over_minor_axis c es al base bytes 0 sh = Val (Vecs_empty al) /\
+  Vecs_next c es base bytes (Vecs_empty al) = Val (Vecs_empty al, None) /\
+  Vecs_next_back c es base bytes (Vecs_empty al) = Val (Vecs_empty al, None) /\
+  Vecs_len c es (Vecs_empty al) = Val 0.
+Proof. repeat split; reflexivity. Qed.
